@@ -142,7 +142,7 @@ m('C11-restart-grants-double-timeout', H, '''            params.mpp_timeout.satu
                 std::time::SystemTime::now()''', ['C11'])
 m('C05-skip-wait-when-pending', H, '''                    Ok(maybe_preimage) => break maybe_preimage,
                     Err(e) => {
-                        error!("Failed to await pending payment, retrying: {:?}", e);''', '''                    Ok(_) => break None,
+                        error!("Failed to await pending payment, retrying: {:?}", e);''', '''                    Ok(_) => break None::<Vec<u8>>,
                     Err(e) => {
                         error!("Failed to await pending payment, retrying: {:?}", e);''', ['C05','C02'])
 m('C12-ignore-base-fee', MSG, '''        let fee_msat = match (self.fee_base_msat as u64).checked_add(rate_part) {
